@@ -4,7 +4,7 @@ CONSTANTS
   K = 1
   M = 0
   Variant = "as_coded"
-  Direct = FALSE
+  Direct = TRUE
   GenHist = FALSE
 INVARIANT C07_LimitsAtShutdown
 INVARIANT C07_NotRemovedEarly
